@@ -2764,11 +2764,16 @@ impl<T: Storage> Raft<T> {
             // at the time writing but hypothetically we handle them the same way as
             // removing the leader: stepping down into the next Term.
             //
-            // TODO(tbg): step down (for sanity) and ask follower with largest Match
-            // to TimeoutNow (to avoid interruption). This might still drop some
-            // proposals but it's better than nothing.
+            // Step down: a leader that is no longer a voter refuses every proposal but,
+            // as long as it keeps sending heartbeats, also keeps the voters from electing
+            // a leader that could accept them, so the group would make no progress until
+            // it is stopped from outside.
             //
-            // TODO(tbg): test this branch. It is untested at the time of writing.
+            // TODO(tbg): ask follower with largest Match to TimeoutNow (to avoid
+            // interruption). This might still drop some proposals but it's better
+            // than nothing.
+            let term = self.term;
+            self.become_follower(term, INVALID_ID);
             return cs;
         }
 
